@@ -18,7 +18,11 @@ import srcpin  # noqa: E402
 
 ROOT = srcpin.ROOT
 REPO = os.environ.get("GVERIF_REPO", "/repo")
-GEN = ["OpsGen", "ReprGen", "GenGen", "AlgoGen", "AlgoGen2", "AlgoGen3", "AlgoGen4", "AlgoGen5"]
+GEN = ["OpsGen", "ReprGen", "GenGen", "AlgoGen", "AlgoGen2", "AlgoGen3", "AlgoGen4", "AlgoGen5", "AlgoGen6"]
+
+# generated structure names that differ from the Rust item they are read from (two private structs of the same name in
+# different files): docstring header word -> source header word
+ALIASES = {"MxArcsIterator": "ArcsIterator", "AlArcsIterator": "ArcsIterator"}
 
 # not library code: test fixtures, test-generating macros, proptest strategies
 def is_test_support(rel, key):
@@ -37,7 +41,8 @@ def src_path(tag):
 
 
 def generated_index():
-    """{(rel, fn name): [(generated file, impl header text)]}"""
+    """{(rel, fn name): [(generated file, impl header text)]}; structs under the name `struct:X` (docstring
+    "`[pub] struct X`"), macros under `macro:m` (docstring header "... (macro m!)")"""
     idx = {}
     for g in GEN:
         p = os.path.join(ROOT, "lean", "GraafVerif", "Model", g + ".lean")
@@ -45,12 +50,23 @@ def generated_index():
             continue
         for m in re.finditer(r"^/-- `([^`]+\.rs)`: (.*)$", open(p).read(), re.M):
             rest = m.group(2)
+            rel = src_path(m.group(1))
+            st = re.match(r"`(?:pub )?struct ([A-Za-z_0-9]+)`", rest)
+            if st:
+                idx.setdefault((rel, "struct:" + st.group(1)), []).append((g, ""))
+                continue
+            hdr = re.match(r"`([^`]*)`", rest)
+            htxt = hdr.group(1) if hdr else ""
+            for a, b in ALIASES.items():
+                htxt = re.sub(r"\b" + a + r"\b", b, htxt)
+            mac = re.search(r"\(macro ([A-Za-z_0-9]+)!\)", htxt)
+            if mac:
+                idx.setdefault((rel, "macro:" + mac.group(1)), []).append((g, ""))
             fn = re.search(r"fn `([A-Za-z_0-9]+)`|`fn ([A-Za-z_0-9]+)`", rest)
             if not fn:
                 continue
             name = fn.group(1) or fn.group(2)
-            hdr = re.match(r"`([^`]*)`", rest)
-            idx.setdefault((src_path(m.group(1)), name), []).append((g, hdr.group(1) if hdr else ""))
+            idx.setdefault((rel, name), []).append((g, htxt))
     return idx
 
 
@@ -81,6 +97,8 @@ def main():
                 hdr, _, name = key.rpartition("::")
                 name = re.sub(r"#\d+$", "", name)
                 gens = []
+                if key.startswith(("struct:", "macro:")):
+                    gens = [g for g, _ in gidx.get((rel, key), [])]
                 for g, gh in gidx.get((rel, name), []):
                     # the blanket impls / default methods are instantiated per representation: header words of the
                     # source item must all occur in the generated docstring's header (or the source header is generic)
@@ -106,7 +124,7 @@ def main():
            f"* both: **{n_both}**; neither: **{len(neither)}**", "",
            "An item under *pinned* is modelled by hand and validated by the correspondence check of the listed "
            "properties; a change to it breaks the pin. An item under *regenerated* has its body read by a translator "
-           "at the start of every check. Struct items are matched through the functions that use them.", ""]
+           "at the start of every check. A struct item is regenerated when a generated file declares its field list (docstring `struct X`), a macro item when a generated definition is read from one of its instantiations (docstring `(macro m!)`).", ""]
     if neither:
         out += ["## In neither column", ""] + [f"* `{r[0]}` `{r[1]}`" for r in neither] + [""]
     out += ["## Table", "", "| file | item | pinned by | regenerated in |", "|---|---|---|---|"]
